@@ -64,7 +64,12 @@ def plan_st(draw, tier):
     d = draw(st.integers(1, 3))
     cfg = {"arms": arms, "lp": lp, "np": [which, {"metric": metric}], "seed": draw(st.integers(0, 2 ** 20)),
            "n_jobs": 1, "backend": None, "arm_kind": kind}
-    h = gen.History(draw, cfg, grid="int", d=d, max_rows=8, exact_only=True)
+    # (one case in five on integers just above 2**24 - amounts in cents, identifiers: exact in double precision, not all
+    # representable in single precision)
+    # (context-free learning policies only: a regression on features of size 1e7 is ill-conditioned, LinTS then fails in
+    # its Cholesky factorisation - a numerical limit of the policy, not a neighbourhood question)
+    grid = draw(st.sampled_from(["int", "int", "int", "int", "f32edge"])) if lp[0] not in ops.LINEAR else "int"
+    h = gen.History(draw, cfg, grid=grid, d=d, max_rows=8, exact_only=True)
     h.fit()
     for _ in range(draw(st.integers(0, 3))):
         h.partial_fit()
@@ -75,7 +80,9 @@ def plan_st(draw, tier):
         if draw(st.booleans()):
             queries.append(list(draw(st.sampled_from(stored))))
         else:
-            queries.append(draw(st.lists(st.integers(-4, 4), min_size=d, max_size=d)))
+            queries.append(draw(st.lists(st.integers(-4, 4) if grid == "int" else
+                                         st.integers(-8, 8).map(lambda k: 16777216 + 3 * k + 1),
+                                         min_size=d, max_size=d)))
     dists = sorted({exact_dist(metric, q, x) for q in queries for x in stored})
     if which == "Radius":
         mode = draw(st.sampled_from(["on", "on", "between", "below"]))
@@ -103,7 +110,8 @@ def plan_st(draw, tier):
     if draw(st.integers(0, 3)) == 0:
         # stored and query contexts as arrays of a narrow or unsigned type (pixel values, counts): distances are those
         # of the numbers, not of the type (for unsigned types the whole data set is shifted to be non-negative)
-        cdt = draw(st.sampled_from(["uint8", "int8", "uint16", "float32", "int32", "uint32"]))
+        cdt = draw(st.sampled_from(["uint8", "int8", "uint16", "float32", "int32", "uint32"] if grid == "int" else
+                                   ["int32", "uint32", "int64", "float64"]))
         if cdt.startswith("u"):
             for op in h.ops:
                 op[3] = [[v + 4 for v in row] for row in op[3]]
